@@ -153,7 +153,13 @@ class Vec(Sym):
         return Vec(kind, n, lambda i: e, 'const')
 
     def havoc(self, ctx, name):
-        return Vec.fresh(ctx, name, self.kind, n=self.n, report=False)
+        """In-place: the array object keeps its identity (iterators and views keep seeing it), contents become arbitrary."""
+        f = Vec.fresh(ctx, name, self.kind, n=self.n, report=False)
+        if self.base is not None:
+            self._write(f._sel)
+        else:
+            self._sel = f._sel
+        return self
 
     def sel(self, i):
         return self._sel(i)
@@ -676,3 +682,69 @@ def builtin_any(ctx, it):
     if isinstance(it, Vec):
         return it._any(ctx)
     return None
+
+
+class SList(Vec):
+    """A Python list of ints of symbolic length (grown by append inside an invariant-carrying loop)."""
+
+    def __init__(self, n, sel, name='list'):
+        super().__init__('int', n, sel, name)
+
+    @staticmethod
+    def fresh_list(ctx, name):
+        n = ctx.int('len(%s)' % name, report=False)
+        ctx.assume(n >= 0)
+        a = z3.Array(ctx.name(name), I, I)
+        return SList(n, lambda i: z3.Select(a, i), name)
+
+    def havoc(self, ctx, name):
+        f = SList.fresh_list(ctx, name)
+        self.n, self._sel = f.n, f._sel
+        return self
+
+    def getattr(self, ctx, name):
+        if name == 'append':
+            def append(ctx, v):
+                old, n, e = self._sel, self.n, zint(v)
+                self._sel = lambda i: z3.If(i == n, e, old(i))
+                self.n = n + 1
+            return append
+        return super().getattr(ctx, name)
+
+    def truth(self, ctx):
+        return self.n > 0
+
+    def sym_min(self, ctx):
+        if not ctx.branch(self.n > 0):
+            raise PyRaise('ValueError', note='min() of empty list')
+        m = ctx.int('min(%s)' % self.name, report=False)
+        w = ctx.int('argmin(%s)' % self.name, report=False)
+        ctx.assume(z3.And(0 <= w, w < self.n, self.sel(w) == m), axiom='min(list): an attained lower bound')
+        ctx.assume(self.forall(lambda i, e: m <= e))
+        return SInt(m)
+
+
+def _sym_max(self, ctx):
+    if not ctx.branch(self.n > 0):
+        raise PyRaise('ValueError', note='max() of empty list')
+    m = ctx.int('max(%s)' % self.name, report=False)
+    w = ctx.int('argmax(%s)' % self.name, report=False)
+    ctx.assume(z3.And(0 <= w, w < self.n, self.sel(w) == m), axiom='max(list): an attained upper bound')
+    ctx.assume(self.forall(lambda i, e: m >= e))
+    return SInt(m)
+
+
+SList.sym_max = _sym_max
+
+
+class Enumerated(Sym):
+    """enumerate(vec): live view, element i is (i, vec[i]) read when reached."""
+
+    def __init__(self, vec, start=0):
+        self.vec, self.start = vec, start
+
+    def seq_len(self, ctx):
+        return self.vec.n
+
+    def seq_at(self, ctx, i):
+        return (SInt(i + self.start), wrap(self.vec.kind, self.vec.sel(i)))
